@@ -120,7 +120,7 @@ func (m *Monitor) onAction(a Action) {
 
 // BeforeOp is called before each operation.
 func (m *Monitor) BeforeOp(op Op) {
-	if op.K == "Stabilize" || op.K == "StabilizeCancelled" {
+	if op.K == "Stabilize" || op.K == "StabilizeCancelled" || op.K == "ParStabilize" {
 		m.runsThisPass = map[int]int{}
 		m.deferred = map[int]int{}
 		m.passStart = map[int]int{}
@@ -257,7 +257,7 @@ func (m *Monitor) reachable() map[int]bool {
 // AfterOp evaluates the state oracles at an operation boundary.
 func (m *Monitor) AfterOp(op Op, s Sample) {
 	e := m.E
-	isPass := op.K == "Stabilize" || op.K == "StabilizeCancelled"
+	isPass := op.K == "Stabilize" || op.K == "StabilizeCancelled" || op.K == "ParStabilize"
 	if s.Crashed {
 		prop := "C05"
 		kind := "panic:" + op.K
@@ -369,7 +369,7 @@ func (m *Monitor) passOracles(op Op, s Sample) {
 	updCount := map[int]int{}
 	obsCount := map[int]int{}
 	changed := map[int]bool{}
-	for i, ev := range s.Events {
+	for i, ev := range s.Raw {
 		switch ev.K {
 		case "EvPassStart":
 			starts++
@@ -430,7 +430,7 @@ func (m *Monitor) passOracles(op Op, s Sample) {
 		}
 	}
 	// C02: every argument equals the input's value when the pass ended (before deferred writes)
-	for _, ev := range s.Events {
+	for _, ev := range s.Raw {
 		if ev.K != "EvInvoked" {
 			continue
 		}
@@ -612,7 +612,7 @@ func (e *Exec) Valid(op Op) bool {
 		return kind(op.A, "Var")
 	case "AddInput", "RemoveInput":
 		return kind(op.A, "MapN") && user(op.B) && (op.K == "RemoveInput" || op.B < op.A)
-	case "Stabilize":
+	case "Stabilize", "ParStabilize":
 		for _, a := range op.Plan {
 			if (a.Kind == "ASet" || a.Kind == "AUpdate") && !kind(a.Var, "Var") {
 				return false
